@@ -25,7 +25,7 @@ MS_INVS = ["RoutingIsBijection", "PrefixOfStages", "StagesMonotone", "InverseUnd
 PRIMES = [2.0, 3.0, 5.0, 7.0]
 
 
-def make_atoms(seed):
+def make_atoms(seed, convert=True):
     import torch
     from nflows import transforms as TR
 
@@ -51,20 +51,32 @@ def make_atoms(seed):
         for p in a2.parameters():
             p.copy_(torch.rand(p.shape, generator=g) - 0.5)
     atoms = {1: a1, 2: a2, 3: a3}
-    for a in atoms.values():
-        a.double().eval()
+    if convert:
+        for a in atoms.values():
+            a.double().eval()
     return atoms
 
 
-def build_prog(p, atoms):
+def build_prog(p, atoms, depth=0):
     from nflows import transforms as TR
 
     t = str(p["t"])
     if t == "atom":
         return atoms[int(p["k"])]
     if t == "inv":
-        return TR.InverseTransform(build_prog(p["p"], atoms))
-    return TR.CompositeTransform([build_prog(q, atoms) for q in p["ps"]])
+        return TR.InverseTransform(build_prog(p["p"], atoms, depth + 1))
+    parts = [build_prog(q, atoms, depth + 1) for q in p["ps"]]
+    # "an iterable of Transform objects": list, tuple, generator, iterator, map
+    kind = (len(parts) + depth + sum(1 for _ in str(p))) % 5
+    if kind == 1:
+        return TR.CompositeTransform(tuple(parts))
+    if kind == 2:
+        return TR.CompositeTransform(q for q in parts)
+    if kind == 3:
+        return TR.CompositeTransform(iter(parts))
+    if kind == 4:
+        return TR.CompositeTransform(map(lambda q: q, parts))
+    return TR.CompositeTransform(parts)
 
 
 def show(p):
@@ -82,9 +94,11 @@ def prog_task(task):
 
     torch.set_num_threads(1)
     states, seed = task[:2]
-    atoms = make_atoms(seed)
+    atoms = make_atoms(seed)                       # the oracle's parts: converted one by one
+    patoms = make_atoms(seed, convert=False)       # the program's parts: built in single precision / training
     if len(task) > 2:  # deep programs use two atoms: which two rotates with the seed
         atoms = {1: atoms[1 + task[2] % 3], 2: atoms[1 + (task[2] + 1) % 3]}
+        patoms = {1: patoms[1 + task[2] % 3], 2: patoms[1 + (task[2] + 1) % 3]}
     g = torch.Generator().manual_seed(seed + 3)
     x = torch.randn(3, 3, generator=g, dtype=torch.float64)
     c = torch.randn(3, 2, generator=g, dtype=torch.float64)
@@ -92,7 +106,10 @@ def prog_task(task):
     for st in states:
         prog = st["prog"]
         try:
-            m = build_prog(prog, atoms)
+            # mode and precision reach the parts through the wrappers (double(), eval() on the program)
+            m = build_prog(prog, patoms)
+            m.double()
+            m.eval()
         except Exception as e:
             out["fails"].append({"kind": "program", "prog": show(prog), "clause": "constructor", "detail": repr(e)[:200], "seed": seed})
             continue
@@ -111,7 +128,9 @@ def prog_task(task):
                 except Exception as e:
                     out["fails"].append({"kind": "program", "prog": show(prog), "clause": "call_raises", "dir": dname, "detail": repr(e)[:200], "seed": seed})
                     continue
-            if ry.shape != y.shape or not torch.allclose(ry, y, rtol=1e-10, atol=1e-10):
+            if ry.dtype != y.dtype or rl.dtype != lad.dtype:
+                out["fails"].append({"kind": "program", "prog": show(prog), "clause": "outputs", "dir": dname, "detail": "%s returns %s / %s for float64 inputs after program.double(): the conversion did not reach every part" % (dname, ry.dtype, rl.dtype), "seed": seed})
+            elif ry.shape != y.shape or not torch.allclose(ry, y, rtol=1e-10, atol=1e-10):
                 out["fails"].append({"kind": "program", "prog": show(prog), "clause": "outputs", "dir": dname, "detail": "%s differs from the parts chained as %s (max diff %.3g)" % (dname, [(int(k), str(d)) for k, d in den], float((ry - y).abs().max())), "seed": seed})
             elif rl.shape != lad.shape or not torch.allclose(rl, lad, rtol=1e-10, atol=1e-10):
                 out["fails"].append({"kind": "program", "prog": show(prog), "clause": "logabsdet", "dir": dname, "detail": "%s logabsdet %s is not the sum over the parts %s" % (dname, rl.tolist(), lad.tolist()), "seed": seed})
